@@ -66,8 +66,10 @@ func createStructDesc(rv reflect.Value) (*structDesc, error) {
 	}
 	sd, err := newStructDescAndPrefetch(rt)
 	if err != nil {
+		rollbackPrefetch()
 		return nil, err
 	}
+	commitPrefetch()
 	sds.Set(abiType, sd)
 	if rv.Kind() == reflect.Ptr {
 		sds.Set(rvTypePtr(rv), sd) // *struct and struct share the same structDesc
@@ -76,6 +78,30 @@ func createStructDesc(rv reflect.Value) (*structDesc, error) {
 }
 
 var prefetchStructDescCache = map[reflect.Type]*structDesc{}
+
+// journal of the build in progress (protected by sdsmu):
+// cache entries added and tType.Sd links set since createStructDesc took the lock.
+// A failed build must take all of them back, not only the entry of the failing type,
+// coz descs of types that nest each other are linked before the whole build is known to succeed.
+var (
+	prefetchJournal []reflect.Type
+	sdLinkJournal   []*tType
+)
+
+func commitPrefetch() {
+	prefetchJournal = prefetchJournal[:0]
+	sdLinkJournal = sdLinkJournal[:0]
+}
+
+func rollbackPrefetch() {
+	for _, t := range prefetchJournal {
+		delete(prefetchStructDescCache, t)
+	}
+	for _, t := range sdLinkJournal {
+		t.Sd = nil
+	}
+	commitPrefetch()
+}
 
 func newStructDescAndPrefetch(t reflect.Type) (*structDesc, error) {
 	if sd := prefetchStructDescCache[t]; sd != nil {
@@ -86,6 +112,7 @@ func newStructDescAndPrefetch(t reflect.Type) (*structDesc, error) {
 		return nil, err
 	}
 	prefetchStructDescCache[t] = sd
+	prefetchJournal = append(prefetchJournal, t)
 	if err := prefetchSubStructDesc(sd); err != nil {
 		delete(prefetchStructDescCache, t)
 		return nil, err
@@ -125,6 +152,7 @@ func fetchStructDesc(t *tType) error {
 		return err
 	}
 	t.Sd = sd
+	sdLinkJournal = append(sdLinkJournal, t)
 	return nil
 }
 
